@@ -132,6 +132,15 @@ def rdm1_spin_components(ctx):
             pair_results = [x for x in subterms(up) if x.op == "getitem" and is_const(x.args[1], 0) and x.args[0].op == "call"
                             and not (func_name(x.args[0]) or "").startswith(("jax.numpy.", "numpy.", "jax.lax.", "jax.random."))
                             and array_fn(x.args[0]) is None]
+            # the helper is a spin-resolved computation: both blocks X[0], X[1] of one input go into it
+            def spin_resolved(call_):
+                idx = {}
+                for a_ in call_parts(call_)[1]:
+                    for y in subterms(a_):
+                        if y.op == "getitem" and y.args[1].op == "const" and y.args[1].args[0] in (0, 1) and type(y.args[1].args[0]) is int:
+                            idx.setdefault(y.args[0].uid, set()).add(y.args[1].args[0])
+                return any(v == {0, 1} for v in idx.values())
+            pair_results = [x for x in pair_results if spin_resolved(x.args[0])]
             if up is dn and pair_results:
                 ctx.ob("SYM-1", f"{fi.qualname}: the down-spin density matrix is built from the down-spin result", False,
                        f"both components are {show(up, maxdepth=2)[:70]}, which selects result [0] of "
